@@ -744,6 +744,29 @@ write_value_info (const gchar *namespace,
   xml_end_element (file, "member");
 }
 
+/* a literal newline, tab or carriage return in an attribute value is read back as a space */
+static void
+write_string_value (Xml         *file,
+                    const gchar *str)
+{
+  const gchar *p, *run = str;
+
+  for (p = str; ; p++)
+    {
+      if (*p == '\n' || *p == '\t' || *p == '\r' || *p == '\0')
+        {
+          gchar *piece = g_strndup (run, p - run);
+
+          xml_printf (file, "%s", piece);
+          g_free (piece);
+          if (*p == '\0')
+            break;
+          xml_printf (file, "&#%d;", (int) *p);
+          run = p + 1;
+        }
+    }
+}
+
 /* the shortest decimal text that reads back to the same value, locale independent */
 static void
 write_floating_value (Xml      *file,
@@ -804,7 +827,7 @@ write_constant_value (const gchar *namespace,
       break;
     case GI_TYPE_TAG_UTF8:
     case GI_TYPE_TAG_FILENAME:
-      xml_printf (file, "%s", value->v_string);
+      write_string_value (file, value->v_string);
       break;
     default:
       g_assert_not_reached ();
